@@ -215,6 +215,12 @@ M = [
     ("C07", "coroutine-subscriber-late-binding", P + "base/events.py",
      "                async def _run_handler_wrapper(handler=handler, inner_args=inner_args, kwargs=kwargs):",
      "                async def _run_handler_wrapper():"),
+    ("C05", "ack-for-abandoned-send-raises", P + "base/message/circuit.py",
+     "            if resend_info and not resend_info.completed.done():\n                resend_info.completed.set_result(None)",
+     "            if resend_info:\n                resend_info.completed.set_result(None)"),
+    ("C05", "unencodable-reliable-stays-queued", P + "base/message/circuit.py",
+     "                self.unacked_reliable.pop((message.direction, message.packet_id), None)\n                raise",
+     "                raise"),
     # ---- C20 ----
     ("C20", "transfer-done-on-done-packet", P + "base/transfer_manager.py",
      "        if not transfer.done() and len(transfer.chunks) == transfer.expected_chunks:",
